@@ -247,6 +247,33 @@ int main(void)
 				last_start = frame_start; frame_start = est.done; have_frame = 1;
 				enc_line("ok", retname(n, buf, sizeof(buf)));
 			}
+			else if (!strcmp(op, "del") && drv_nw == 3) {
+				struct iovec to, from;
+				char buf[32];
+				if (drv_parse_nat(drv_w[2], &a)) { puts("bad-op"); continue; }
+				free(pending); pending = 0; plen = 0;
+				to.iov_base = win; to.iov_len = cap;
+				from.iov_base = 0; from.iov_len = a;
+				ssize_t n = enc(&est, &to, &from);
+				if (n < 0) { enc_line("refused", drv_errname(n)); continue; }
+				frame_start = est.done; last_start = frame_start; have_frame = 0;
+				enc_line("ok", retname(n, buf, sizeof(buf)));
+			}
+			else if (!strcmp(op, "nullwin") && drv_nw == 3) {
+				/* uninitialized target: iov_base = NULL, iov_len = 0 */
+				struct iovec to, from;
+				to.iov_base = 0; to.iov_len = 0;
+				ssize_t n;
+				if (!strcmp(drv_w[2], "term")) n = enc(&est, &to, 0);
+				else {
+					if (drv_parse_data(drv_w[2], &dat, &dlen, &isnull) || isnull) { puts("bad-op"); continue; }
+					from.iov_base = dat; from.iov_len = dlen;
+					n = enc(&est, &to, &from);
+					free(dat);
+				}
+				if (n < 0) enc_line("refused", drv_errname(n));
+				else enc_line("ok", "?");
+			}
 			else if (!strcmp(op, "check") && drv_nw == 2) {
 				size_t end = frame_start <= cap ? frame_start : cap;
 				size_t st = last_start <= end ? last_start : end;
@@ -283,6 +310,15 @@ int main(void)
 				ssize_t n = mpt_array_push(&arr, 0, 0);
 				alarm(0);
 				if (n >= 0) { last_start = frame_start; frame_start = arr._state.done; have_frame = 1; }
+				arr_line(n);
+				printf(" taken=0\n");
+			}
+			else if (!strcmp(op, "del") && drv_nw == 3) {
+				if (drv_parse_nat(drv_w[2], &a) || !a) { puts("bad-op"); continue; }
+				alarm(10);
+				ssize_t n = mpt_array_push(&arr, a, 0);
+				alarm(0);
+				if (n >= 0) { frame_start = arr._state.done; last_start = frame_start; have_frame = 0; }
 				arr_line(n);
 				printf(" taken=0\n");
 			}
